@@ -3,9 +3,10 @@ import numpy as np
 
 from common import R, Rmat, cfl, fl, max_rel_err, ModelError
 
-from common import wiring_pre_build as pre_build  # noqa: E402,F401
+from common import all_pre_build as pre_build  # noqa: E402,F401  (wiring + hc + fncalls translators)
 
-LEAN_MODULES = ["PyomaVerif.Props.C13", "PyomaVerif.Props.C13Parseval", "PyomaVerif.Props.C13Phase", "PyomaVerif.Mutants.C13", "PyomaVerif.Props.WiringRun", "PyomaVerif.Props.WiringStore", "PyomaVerif.Props.WiringClass", "PyomaVerif.Props.WiringCalls"]
+LEAN_MODULES = ["PyomaVerif.Props.C13", "PyomaVerif.Props.C13Parseval", "PyomaVerif.Props.C13Phase", "PyomaVerif.Mutants.C13", "PyomaVerif.Props.WiringRun", "PyomaVerif.Props.WiringStore", "PyomaVerif.Props.WiringClass", "PyomaVerif.Props.WiringCalls",
+                "PyomaVerif.Props.C13Dispatch", "PyomaVerif.Props.WiringFn"]
 THEOREMS = [
     # call-site wiring of the class layer, regenerated from /repo on every run (translate_wiring.py)
     "PV.WiringRun.C13_run_spectral",
@@ -97,12 +98,39 @@ THEOREMS = [
     "PV.C13.Mutants.cor_conj_opposite_phase",
     "PV.C13.Mutants.opp_conj_violates_hann_gain_delay",
     "PV.C13.Mutants.raw_differs_below_line_2",
+    # Props/C13Dispatch.lean: SD_est as ONE function (Model/SpectralM.sdEstM, op sd_est, stream SD_est[dispatch])
+    "PV.C13.sdEstM_other_raises",
+    "PV.C13.sdEstM_unbound_iff",
+    "PV.C13.sdEstM_per",
+    "PV.C13.sdEstM_per_overlap_raises",
+    "PV.C13.sdEstM_cor",
+    "PV.C13.sdEstM_length_raises",
+    "PV.C13.sdEstM_ok_inv",
+    "PV.C13.sdEstM_grid",
+    "PV.C13.sd_grid_last_odd",
+    "PV.C13.sd_grid_last_odd_lt",
+    "PV.C13.perNoverlap_int",
+    "PV.C13.perNoverlap_lt",
+    "PV.C13.sdEstM_per_pov",
+    "PV.C13.expWin_real",
+    # Props/WiringFn.lean: the scipy calls INSIDE SD_est (which value reaches which csd / window parameter under which
+    # branch test), regenerated from /repo on every run (translate_fncalls.py)
+    "PV.WiringFn.C13_sd_est_csd_cor",
+    "PV.WiringFn.C13_sd_est_csd_per",
+    "PV.WiringFn.C13_sd_est_expwin",
+    "PV.WiringFn.C13_sd_est_calls",
+    "PV.WiringFn.C13_sd_est_defaults",
 ]
 RULE = (
     "correspondence: fdd.SD_est ('per' and 'cor') vs the Lean model Spectral.sdEstPer/sdEstCor executed with Float "
     "(twiddles cos/sin, Hann = 1/2 - 1/2 Re tw, exponential window exp) on random records (1..4 channels, 1..3 refs, "
     "nxseg 4..64 all parities, plus 128..512 quick / ..4096 thorough, overlaps incl. non-integer nxseg*pov, random dt), "
     "max |diff| <= 1e-9 * max |entry|, frequencies 1e-12; malformed stream (length mismatch, pov >= 1) must raise in both. "
+    "SD_est[dispatch]: the ONE dispatching model Spectral.sdEstM (op sd_est) vs fdd.SD_est on valid calls, unknown method strings (with and "
+    "without other faults), length mismatch, pov >= 1, nxseg 0..3, records shorter than a segment, pov < 0: same outcome CLASS (returns / "
+    "ValueError / UnboundLocalError), values 1e-9, the noverlap handed to scipy.signal.csd (recorded call) = the model's int(nxseg*pov), "
+    "the lag window returned by signal.windows.exponential (recorded) = the model's expWin 1e-13; SD_est[noverlap]: int(nxseg*pov) exact on "
+    "300 / 4000 pairs incl. products that round up to an integer. "
     "oracle: the property's battery on the real code (independent numpy Welch lines >= 2, grid, pairing, bilinearity, "
     "g^2, Hermitian PSD, Parseval (mean square 5 %; exact window-weighted segment form of sd_per_parseval 1e-10), gain-and-delay (broadband 5 % / 30 %; "
     "EXACT 1e-9 on records satisfying the hypotheses of sd_cor_gain_delay -- lag-domain form, any exponential lag window -- and sd_per_gain_delay), grid-line sinusoids; class layer: result.freq/Sy of FDD and pLSCF through SingleSetup in "
@@ -114,6 +142,10 @@ EXTRA_TRUSTED = [
     "Lean Float (IEEE double) arithmetic and libm cos/sin/exp/log in the compiled driver",
 ]
 ASSUMPTIONS = [
+    "sdEstM declines ('unmodelled', counted) where scipy returns something the model does not describe: record shorter than nperseg (warning, "
+    "shorter segment), negative overlap (pov < 0), Hann window of length 1 (nxseg = 1), empty arrays; dt = 0 (ZeroDivisionError for a Python "
+    "float) is outside the model; the product nxseg*pov and int() are the platform's (SdEnv.trunc): over an ordered field perNoverlap_int "
+    "gives floor(nxseg*pov), in double arithmetic the product is rounded first (10*0.7 -> 7; stream SD_est[noverlap])",
     "records have at least one full segment (nxseg <= Ndat): shorter records make scipy shrink nperseg with a warning and are outside the model",
     "the approximate statements of the property (Parseval 5 %, gain-and-delay 5 % / 30 % on non-periodic broadband data) are validated by search only; "
     "gain-and-delay oracle: the DC line is compared only for delays <= nxseg/512 (segment-mean removal leaves untapered weights there; "
@@ -222,6 +254,138 @@ def correspondence(ctx):
         ctx.corr("SD_est[per,malformed]", impl_raises and model_raises, {"kind": kind, "nxseg": nxseg, "pov": pov},
                  model_raises, impl_raises, ("malformed", kind))
         ctx.count("corr_malformed")
+    _corr_dispatch(ctx, sd)
+
+
+# ----------------------------------------------------------------------------- SD_est as ONE function (Model/SpectralM.sdEstM)
+BAD_METHODS = ["Per", "PER", "welch", "", "corr", "cor ", "periodogram", "co", "p"]
+
+
+def _real_sd_recorded(sd, Y, Yr, dt, nxseg, method, pov):
+    """run the real SD_est; -> (outcome, payload, rec): outcome 'ok' / exception class name; rec = the `noverlap` the
+    function handed to scipy.signal.csd and the lag window it got from signal.windows.exponential (recorded calls)"""
+    import warnings
+
+    from pyoma2.functions import fdd
+
+    rec = {}
+    csd0, exp0 = fdd.signal.csd, fdd.signal.windows.exponential
+
+    def csd(*a, **k):
+        rec["csd_kw"] = {q: v for q, v in k.items()}
+        return csd0(*a, **k)
+
+    def expo(*a, **k):
+        w = exp0(*a, **k)
+        rec["expwin"] = np.array(w, dtype=float)
+        return w
+
+    fdd.signal.csd, fdd.signal.windows.exponential = csd, expo
+    try:
+        with warnings.catch_warnings(record=True) as wl:
+            warnings.simplefilter("always")
+            f, S = sd(Y, Yr, dt, nxseg, method, pov)
+        rec["warned"] = [w.category.__name__ for w in wl]
+        return "ok", (np.asarray(f), np.asarray(S)), rec
+    except Exception as e:  # noqa: BLE001
+        return type(e).__name__, str(e), rec
+    finally:
+        fdd.signal.csd, fdd.signal.windows.exponential = csd0, exp0
+
+
+def _dispatch_case(ctx, sd, kind, method, nxseg, pov, na, nr, Ndat, Ndat_all, dt):
+    g = ctx.nprng()
+    Y = g.standard_normal((na, Ndat_all)) * 10.0 ** g.uniform(-1, 1)
+    Yr = g.standard_normal((nr, Ndat))
+    if Ndat_all == Ndat and nr <= na and ctx.rng.random() < 0.5:
+        Yr = Y[:nr, :].copy()
+    small = {"kind": kind, "method": method, "nxseg": nxseg, "pov": pov, "dt": dt, "shape": [na, Ndat_all, nr, Ndat]}
+    out = ctx.model("sd_est", Yall=Rmat(Y), Yref=Rmat(Yr), dt=R(dt), nxseg=nxseg, method=method, pov=R(pov))
+    impl, pay, rec = _real_sd_recorded(sd, Y, Yr, dt, nxseg, method, pov)
+    mo = out.get("raise", "ok")
+    fn = "SD_est[dispatch]"
+    key = (kind, method if method in ("per", "cor") else "other", mo)
+    if mo == "unmodelled":
+        # the model declines (scipy warns and shortens the segment, negative overlap, Hann of length 1, empty arrays): the
+        # real call must not end in the two exceptions the model does describe for other reasons
+        ctx.count("dispatch_unmodelled")
+        ctx.corr(fn, impl in ("ok", "ValueError"), small, out, impl, key)
+        return
+    ok = mo == impl
+    det = {}
+    if ok and mo == "ok":
+        f, S = pay
+        fm, Sm = _unpack(out)
+        det = {"err_S": max_rel_err(Sm, S), "err_f": max_rel_err(fm, f), "warned": rec.get("warned")}
+        ok = det["err_S"] <= 1e-9 and det["err_f"] <= 1e-12 and not rec.get("warned")
+        if method == "per":
+            # the overlap scipy was handed, as scipy converts it, is the model's `perNoverlap`
+            nov_real = int(rec["csd_kw"]["noverlap"])
+            det["noverlap"] = [out["noverlap"], nov_real]
+            ok = ok and out["noverlap"] == nov_real
+            ctx.count("dispatch_nov_nonint" if float(nxseg * pov) != nov_real else "dispatch_nov_int")
+        else:
+            n2 = 2 * (nxseg // 2)
+            wm = np.array([fl(v) for v in ctx.model("sd_expwin", M=n2)])
+            det["err_win"] = max_rel_err(wm, rec["expwin"])
+            ok = ok and det["err_win"] <= 1e-13
+    ctx.corr(fn, ok, small | ({"Yall": Y.tolist(), "Yref": Yr.tolist()} if Y.size <= 200 else {}), out if mo != "ok" else det, impl, key)
+    ctx.count(f"dispatch_{mo}")
+
+
+def _corr_dispatch(ctx, sd):
+    """`sdEstM`: the method string selects the branch, everything else raises UnboundLocalError BEFORE any argument is
+    looked at; the argument checks of reshape / csd; `noverlap = int(nxseg * pov)` in double arithmetic; the lag window"""
+    rng = ctx.rng
+    for k in range(ctx.n(60, 500)):
+        r = rng.random()
+        nxseg = rng.randint(4, 24)
+        na, nr = rng.randint(1, 3), rng.randint(1, 2)
+        Ndat = rng.randint(nxseg, 4 * nxseg)
+        Ndat_all = Ndat
+        pov = rng.choice(POVS8 + [0.3, 0.66, 0.1, 0.9, 1 / 3, 0.7, 0.35, 0.55, 0.6, 0.15, round(rng.uniform(0, 0.95), 3)])
+        method = rng.choice(["per", "cor"])
+        dt = rng.choice([0.01, 1 / 256, 1.0, round(rng.uniform(1e-3, 0.5), 4)])
+        if r < 0.3:
+            kind = "valid"
+        elif r < 0.5:
+            kind = "unknown-method"
+            method = rng.choice(BAD_METHODS)
+            if rng.random() < 0.4:  # … whatever else is wrong
+                Ndat_all = Ndat + rng.randint(1, 3)
+            if rng.random() < 0.3:
+                pov = 1.5
+        elif r < 0.62:
+            kind = "length"
+            Ndat_all = Ndat + rng.choice([-2, -1, 1, 3])
+        elif r < 0.74:
+            kind = "pov>=1"
+            pov = rng.choice([1.0, 1.25, 2.0, 1.0 + 2.0 ** -30])
+        elif r < 0.86:
+            kind = "tiny-nxseg"
+            nxseg = rng.choice([0, 1, 2, 3])
+            Ndat = Ndat_all = rng.randint(4, 12)
+        elif r < 0.93:
+            kind = "short-record"  # 'cor' needs nxseg//2 samples only, 'per' a full segment
+            Ndat = Ndat_all = rng.randint(max(1, nxseg // 2 - 1), nxseg - 1)
+        else:
+            kind = "pov<0"
+            pov = -rng.choice([0.25, 0.5, 0.01])
+        _dispatch_case(ctx, sd, kind, method, nxseg, pov, na, nr, Ndat, Ndat_all, dt)
+    # int(nxseg * pov): the product is rounded to a double BEFORE the truncation (10 * 0.7 = 7.0 although 0.7 < 7/10)
+    bad = 0
+    cases = [(10, 0.7), (10, 0.1), (100, 0.29), (100, 0.57), (100, 0.58), (1000, 0.009), (3, 1 / 3), (49, 1 / 49), (1024, 0.5)]
+    for _ in range(ctx.n(300, 4000)):
+        cases.append((rng.randint(1, 4096), rng.choice([round(rng.uniform(0, 0.999), rng.randint(1, 4)), rng.uniform(0, 0.999)])))
+    for nxseg, pov in cases:
+        m = ctx.model("sd_noverlap", nxseg=nxseg, pov=R(pov))
+        real = int(nxseg * pov)
+        from fractions import Fraction
+
+        if real != int(nxseg * Fraction(pov)):
+            ctx.count("noverlap_product_rounds_up")
+        bad += m != real
+    ctx.corr("SD_est[noverlap]", bad == 0, {"cases": len(cases)}, bad, 0, ("noverlap", len(cases) > 0))
 
 
 # ----------------------------------------------------------------------------- oracle helpers
